@@ -3,6 +3,7 @@ package harness
 import (
 	"fmt"
 	"math/rand"
+	"regexp"
 	"sort"
 	"strings"
 	"testing"
@@ -367,7 +368,13 @@ func checkC08(t *testing.T, sc *Scenario) *Verdict {
 		}
 		kinds, d2 := diffAnswers(cp.answers, fa)
 		if len(kinds) > 0 {
-			return v.violation("c08-differs-from-fresh", "answer:"+kinds[0], fmt.Sprintf("at op#%d (history %s): A=history B=fresh: %s", cp.at, opKinds(sc.Ops[:cp.at]), d2), replayForm())
+			sig := "answer:" + kinds[0]
+			if g := sharedTableGlobal(sc); g != "" && strings.Contains(d2, "\"name\":\""+g+".") {
+				// the differing entry is a member of a global table whose members are defined in
+				// several files, one of which was deleted or rewritten during the history
+				sig += " +member-of-global-table-defined-across-files"
+			}
+			return v.violation("c08-differs-from-fresh", sig, fmt.Sprintf("at op#%d (history %s): A=history B=fresh: %s", cp.at, opKinds(sc.Ops[:cp.at]), d2), replayForm())
 		}
 	}
 	v.NonTrivial = mutations >= 2 && len(cps) > 0
@@ -438,10 +445,66 @@ func c08DirtyCheck(t *testing.T, v *Verdict, cp *c08Checkpoint) string {
 			want = onlyType1(fd.View[uri], false)
 		}
 	}
-	got := cp.view[uri]
-	sort.Strings(want)
+	// compared as sets: the live analysis may report the same syntax error twice where the saved
+	// analysis de-duplicates; that is the same set of diagnostics
+	got := dedupe(cp.view[uri])
+	want = dedupe(want)
 	if strings.Join(got, "\n") != strings.Join(want, "\n") {
 		return fmt.Sprintf("%s|%s: client holds %v, expected %v (buffer %q)", tag, cp.dirty, got, want, clip(string(buf), 120))
+	}
+	return ""
+}
+
+
+func dedupe(xs []string) []string {
+	seen := map[string]bool{}
+	var out []string
+	for _, x := range xs {
+		if !seen[x] {
+			seen[x] = true
+			out = append(out, x)
+		}
+	}
+	sort.Strings(out)
+	return out
+}
+
+
+var memberDefRe = regexp.MustCompile(`(?m)^function\s+([A-Za-z_][A-Za-z0-9_]*)[:.]`)
+
+// sharedTableGlobal returns the name of a global table that gets members (function G:m / G.f)
+// in at least two different files over the course of the scenario ("" if none).
+func sharedTableGlobal(sc *Scenario) string {
+	where := map[string]map[string]bool{}
+	add := func(path string, text []byte) {
+		for _, m := range memberDefRe.FindAllSubmatch(text, -1) {
+			g := string(m[1])
+			if where[g] == nil {
+				where[g] = map[string]bool{}
+			}
+			where[g][path] = true
+		}
+	}
+	for _, f := range sc.Files {
+		add(f.Path, f.Data)
+	}
+	for _, o := range sc.Ops {
+		if o.Kind == "fswrite" {
+			add(o.Path, o.Data)
+		}
+		for _, ed := range o.Edits {
+			add(o.Path, []byte(ed.Text))
+		}
+	}
+	var names []string
+	for g, ps := range where {
+		if len(ps) >= 2 {
+			names = append(names, g)
+		}
+	}
+	sort.Strings(names)
+	if len(names) > 0 {
+		return names[0]
 	}
 	return ""
 }
